@@ -164,7 +164,7 @@ fn replace_prototype_call_or_apply(
             &mut prototype_call.2,
             csi_methods,
             member,
-            &ident_name.sym,
+            ident_name,
             ident_provider,
         ),
         _ => None,
@@ -245,7 +245,7 @@ fn replace_call_expr_if_csi_method_with_member(
     call: &mut CallExpr,
     csi_methods: &CsiMethods,
     member_expr_opt: Option<&MemberExpr>,
-    call_or_apply: Option<&str>,
+    call_or_apply: Option<&IdentName>,
     ident_provider: &mut dyn IdentProvider,
 ) -> Option<ResultExpr> {
     let method_name = &ident_name.sym.to_string();
@@ -356,7 +356,7 @@ fn replace_call_expr_or_spread_if_csi_method_with_member(
     call: &mut CallExpr,
     csi_methods: &CsiMethods,
     member_expr: &MemberExpr,
-    call_or_apply: &str,
+    call_or_apply: &IdentName,
     ident_provider: &mut dyn IdentProvider,
 ) -> Option<ResultExpr> {
     if expr_or_spread.spread.is_none() {
@@ -388,7 +388,7 @@ fn replace_call_spread_if_csi_method_with_member(
     call: &mut CallExpr,
     csi_methods: &CsiMethods,
     member_expr: &MemberExpr,
-    call_or_apply: &str,
+    call_or_apply: &IdentName,
     ident_provider: &mut dyn IdentProvider,
 ) -> Option<ResultExpr> {
     let method_name = &ident_name.sym.to_string();
@@ -438,21 +438,36 @@ fn replace_call_callee_and_args(
     ident_callee_expr: Option<Expr>,
     assignations: &mut Vec<Expr>,
     arguments: &mut Vec<ExprOrSpread>,
-    call_or_apply: Option<&str>,
+    call_or_apply: Option<&IdentName>,
     ident_provider: &mut dyn IdentProvider,
 ) -> CallExpr {
     let mut call_replacement = call.clone();
 
     let span = call.span;
 
-    let prop_name = call_or_apply.unwrap_or("call");
+    let prop_name = call_or_apply.map_or("call", |ident_name| ident_name.sym.as_str());
+
+    // the engine reports a call at the name of the invoked property (`concat` of a.concat(b), `call` of
+    // X.prototype.concat.call(a, b)), which may be lines below the start of the expression: the injected
+    // [call|apply] takes that position, so that a frame of the rewritten call resolves to the original line
+    let prop_span = match (call_or_apply, &call.callee) {
+        (Some(ident_name), _) => ident_name.span,
+        (None, Callee::Expr(callee)) => match &**callee {
+            Expr::Member(MemberExpr {
+                prop: MemberProp::Ident(prop),
+                ..
+            }) => prop.span,
+            _ => span,
+        },
+        _ => span,
+    };
 
     // change callee to __datadog_token_$i2.[call|apply]
     if let Some(ident) = ident_callee_expr {
         call_replacement.callee = Callee::Expr(Box::new(Expr::Member(MemberExpr {
             span,
             obj: Box::new(ident),
-            prop: MemberProp::Ident(IdentName::new(prop_name.into(), span)),
+            prop: MemberProp::Ident(IdentName::new(prop_name.into(), prop_span)),
         })));
     }
 
